@@ -8,8 +8,8 @@
    measurement.  `name <> []`: the code's `if measurement:` treats the empty name as "no filter". *)
 From Coq Require Import List ZArith NArith Bool.
 From TF Require Import Base Query Index DB Spec proofs.IndexDefs proofs.RepP proofs.DBReadP proofs.DBRemoveP
-     proofs.DBStepP proofs.DBRunP proofs.DBSpecP proofs.HandleGenP.
-From TF Require gen.HandleGen.
+     proofs.DBStepP proofs.DBRunP proofs.DBSpecP proofs.HandleGenP IndexSem DbSem proofs.DbGetGenP.
+From TF Require gen.HandleGen gen.DbGetGen.
 Import ListNotations.
 
 Theorem C10_handle_is_restricted : forall E C norm s name h o, restrict name h = Some o ->
@@ -40,6 +40,17 @@ Theorem C10_insert_sets_name : forall E C norm s ps name, Inv s -> wf_insert nor
   st_rows (fst r) = st_rows s ++ map (fun p => set_meas p name) (prefix_points ps).
 Proof. exact handle_insert_named. Qed.
 
+(* the two methods of class Measurement that do NOT forward - len(handle) and iteration over a handle - COMPILED from tinyflux/measurement.py on every
+   run (gen/DbGetGen.v; self._db the database object, self._name the handle's name; a generator function is what it yields, in order): iteration
+   yields exactly the stored points of that measurement, in storage order; the length is their number (whenever a valid index object describes the
+   rows: DInv); and iterating the database itself yields every stored point *)
+Theorem C10_source_handle_iter_is_restricted : forall d name, DbGetGen.gen_meas___iter__ d name = filter (fun p => str_eqb (p_meas p) name) (db_rows d).
+Proof. exact source_handle_iter. Qed.
+Theorem C10_source_handle_len_is_restricted : forall d name, DInv d -> DbGetGen.gen_meas___len__ d name = length (filter (fun p => str_eqb (p_meas p) name) (db_rows d)).
+Proof. exact source_handle_len_exact. Qed.
+Theorem C10_source_db_iter : forall d, DbGetGen.gen_db___iter__ d = db_rows d.
+Proof. exact source_db_iter. Qed.
+
 Print Assumptions C10_handle_is_restricted.
 Print Assumptions C10_source_forwarding_is_the_model.
 Print Assumptions C10_source_insert_multiple_is_the_model.
@@ -48,3 +59,6 @@ Print Assumptions C10_search_confined.
 Print Assumptions C10_remove_confined.
 Print Assumptions C10_update_confined.
 Print Assumptions C10_insert_sets_name.
+Print Assumptions C10_source_handle_iter_is_restricted.
+Print Assumptions C10_source_handle_len_is_restricted.
+Print Assumptions C10_source_db_iter.
